@@ -40,6 +40,7 @@ Norm(n, d) == LET g == Gcd(n, d)  s == IF d < 0 THEN -1 ELSE 1
 Small(a)   == Abs(a[2]) <= Bnd /\ a[3] <= Bnd
 Pow2(e)    == CASE e = 0 -> 1 [] e = 1 -> 2 [] e = 2 -> 4 [] e = 3 -> 8 [] e = 4 -> 16
                 [] e = 5 -> 32 [] e = 6 -> 64 [] e = 7 -> 128 [] e = 8 -> 256
+                [] e = 20 -> 1048576 [] e = 30 -> 1073741824
 
 (* strictness/propagation shared by all binary operators: und > big > opq > val *)
 Tag2(a, b) == IF a[1] = "und" \/ b[1] = "und" THEN "und"
@@ -184,6 +185,13 @@ MatVec(M, env) == [op |-> "mat", tree |-> <<M[1], M[2], M[3], SubSeq(M[4], 1, Le
 (* depth-3 sample (thorough): deterministic thinning of the one-sided depth-2 trees *)
 Keep3(o, T) == T[1] \in {"fmod", "rem", "min", "lt", "eq", "sub", "div", "pow", "sqrt", "sin"} /\ o \in {"add", "mul", "max", "fmod", "rem", "le", "ne"}
 
+(* constants whose conversion must be EXACT (a converter may not round, truncate or snap a constant): tiny
+   dyadics, values within 1e-9 of an integer, large integers, negative zero-ish -- 2^-30 = 9.3e-10 needs a
+   2^30 denominator, so these appear as bare leaves only (32-bit evaluator)                              *)
+ConstLeaves == { <<"flt", 1, 30>>, <<"flt", -1, 30>>, <<"flt", 1073741825, 30>>, <<"flt", -1073741823, 30>>, <<"flt", 3, 20>>,
+                 <<"flt", 7340033, 20>>, <<"int", 2000000000>>, <<"int", -1999999999>>, <<"rat", 1, 1000000007>>,
+                 <<"rat", 999999999, 1000000000>>, <<"flt", 5, 1>>, <<"int", 0>> }
+
 (* ------------------------------ two-level enumeration ------------------------------ *)
 Seed(form, a, b) == [op |-> "seed", form |-> form, a |-> a, b |-> b]
 Init ==
@@ -194,8 +202,11 @@ Init ==
   \/ \E C \in Cmp1({ <<"int", 2>>, X, Y }) : tv = Seed("ite", C, 0)
   \/ \E nf \in 1..3 : \E k \in 1..nf : tv = Seed("call", k, nf)
   \/ \E sh \in Shapes : tv = Seed("mat", sh, 0)
+  \/ \E c \in ConstLeaves : tv = Seed("const", c, 0)
 
 Next == tv.op = "seed" /\
+  \/ /\ tv.form = "const"
+     /\ tv' = [op |-> "const", tree |-> tv.a, exp |-> Eval(tv.a, Env0)]
   \/ /\ tv.form = "d1"
      /\ \/ \E E \in Wrap1(tv.a) \cup {tv.a} : \E env \in EnvsOf(E, Envs1) : tv' = Vec(E, env, 0)
         \/ \E b \in BinOps, a2 \in L1 : LET E == <<b, tv.a, a2>> IN \E env \in EnvsOf(E, Envs1) : tv' = Vec(E, env, 0)
